@@ -110,5 +110,20 @@ TABLE = [
 ]
 
 
+# what of a function's grammar a property is about (default: the whole grammar)
+#   ("cut", d): grammar inside length-delimited regions nested deeper than d is replaced by a placeholder
+#   ("skeleton",): consumption skeleton only (no guards, values, dispatch constants)
+PROJECTION = {
+    ("C02", "tls_record::parse_tls_plaintext"): ("cut", 0),          # framing only; the payload is C03's
+    ("C03", "tls_record::parse_tls_plaintext"): ("cut", 1),          # messages framed; handshake bodies are C04's
+    ("C03", "tls_record::parse_tls_record_with_header"): ("cut", 0),
+    ("C03", "tls_handshake::parse_tls_message_handshake"): ("cut", 0),
+    ("C07", "tls_record::parse_tls_record_with_header"): ("cut", 0),
+}
+for _p, _s, _props in TABLE:
+    if "C06" in _props:
+        PROJECTION[("C06", _p)] = ("skeleton",)
+
+
 def entries(prop):
     return [(p, s) for p, s, props in TABLE if prop in props]
